@@ -14,6 +14,9 @@ var zzAllowed = map[string][]string{
 	"dirty":      {"start", "resize", "setrebuilding", "setlogging", "close", "snapshot", "reload", "removedisk", "replacedisk", "updatediskmode", "revert", "setreplicamode", "prepareremovedisk", "setreplicacounter", "updatecloneinfo", "setcheckpoint"},
 	"rebuilding": {"setrebuilding", "setlogging", "close", "reload", "setreplicamode", "setrevisioncounter", "setreplicacounter", "updatecloneinfo", "setcheckpoint"},
 	"error":      {},
+	// nothing attached: closed, whatever flags volume.meta still carries
+	"closed-rebuilding": {"start", "open", "resize", "removedisk", "replacedisk", "revert", "updatecloneinfo", "prepareremovedisk", "setreplicacounter"},
+	"closed-dirty":      {"start", "open", "resize", "removedisk", "replacedisk", "revert", "updatecloneinfo", "prepareremovedisk", "setreplicacounter"},
 }
 
 var zzActionNames = []string{"start", "reload", "updatecloneinfo", "snapshot", "open", "close", "resize", "removedisk", "replacedisk", "setrebuilding", "setlogging", "create", "revert", "prepareremovedisk", "setrevisioncounter", "setreplicamode", "setcheckpoint", "nosuchaction", ""}
